@@ -619,3 +619,7 @@ pub fn choice(n: usize, tag: &str) -> usize {
 pub fn observe(label: &str, v: i64) {
     ctx::lock().observe(label, v);
 }
+/// true while the explorer runs the body symbolically (false in concrete replay / native runs)
+pub fn is_symbolic_run() -> bool {
+    ctx::lock().symbolic
+}
